@@ -1063,11 +1063,19 @@ class ConvTranspose(Module):
         for y_dim, x_dim in zip(y.shape[1:-1], scaled_x_dims)
       ]
       if self.transpose_kernel:
-        # If the kernel is transposed, the "+1" is put on the right to
-        # mirror the regular convolution. If the same kernel parameters are used
-        # as for Conv, this layer then computes the proper transpose convolution.
+        # If the kernel is transposed, the start of `y` is put as far before a
+        # period boundary as the regular 'CIRCULAR' convolution pads on the
+        # left. If the same kernel parameters are used as for Conv, this layer
+        # then computes the proper transpose convolution.
+        left_pads = [
+          -(((k - 1) * d) // 2) % x_dim
+          for k, d, x_dim in zip(kernel_size, kernel_dilation, scaled_x_dims)
+        ]
         total_pad = [
-          (size_diff // 2, (size_diff + 1) // 2) for size_diff in size_diffs
+          (left_pad, -(y_dim + left_pad) % x_dim)
+          for left_pad, y_dim, x_dim in zip(
+            left_pads, y.shape[1:-1], scaled_x_dims
+          )
         ]
       else:
         # Divide the padding equally between left and right. The choice to put
